@@ -67,6 +67,23 @@ Let isph := isphys physl.
 Let al := src_alias isph al0.
 Let spb := sp physl special.
 Let kf := keepf special.
+(* kept registers that are clean or have been rewritten (acc) *)
+Definition Kacc (D acc : list reg) (r : reg) : bool :=
+  keepf special r && (negb (memz r D) || memz r acc).
+
+Lemma spill_sim_mono : forall (K1 K2 : reg -> bool) F rf' mem rf,
+  (forall r, K2 r = true -> K1 r = true) ->
+  spill_sim K1 F rf' mem rf -> spill_sim K2 F rf' mem rf.
+Proof. intros K1 K2 F rf' mem rf H [A B]; split; auto. Qed.
+
+Lemma Kacc_kf : forall D acc r, Kacc D acc r = true -> kf r = true.
+Proof. unfold Kacc, kf; intros D acc r H; apply andb_true_iff in H; tauto. Qed.
+
+Lemma Kacc_cons_neq : forall D acc d r, r <> d -> Kacc D (d :: acc) r = Kacc D acc r.
+Proof.
+  intros D acc d r N. unfold Kacc, memz; cbn [existsb].
+  destruct (Z.eqb_spec r d); [contradiction|]. reflexivity.
+Qed.
 
 Lemma sp_nonphys : forall r, spb r = true -> isph r = false /\ kf r = false.
 Proof.
@@ -94,12 +111,12 @@ Proof.
 Qed.
 
 (* ---------------------------------------------------------------- one paired write *)
-Lemma pair_write_sound : forall J F F1 d' d x rf' mem rf,
-  spill_sim kf F rf' mem rf -> facts_valid F ->
+Lemma pair_write_sound : forall D acc J F F1 d' d x rf' mem rf,
+  spill_sim (Kacc D acc) F rf' mem rf -> facts_valid F ->
   pair_write physl special F d' d = Some F1 ->
-  spill_sim kf F1 (write al J d' x rf') mem (write al J d x rf) /\ facts_valid F1.
+  spill_sim (Kacc D (d' :: acc)) F1 (write al J d' x rf') mem (write al J d x rf) /\ facts_valid F1.
 Proof.
-  intros J F F1 d' d x rf' mem rf [HK HF] HV HP. unfold pair_write in HP.
+  intros D acc J F F1 d' d x rf' mem rf [HK HF] HV HP. unfold pair_write in HP.
   set (F0 := filter (fun f => negb (loc_eqb (fst f) (LReg d')) && negb (snd f =? d)) F) in *.
   assert (OLD : forall f, In f F0 -> holds (write al J d' x rf') mem (write al J d x rf) f
                                      /\ fact_ok physl special f = true).
@@ -123,16 +140,18 @@ Proof.
     apply andb_true_iff in CA. destruct CA as [E Kd]. apply Z.eqb_eq in E. subst d'.
     inversion HP; subst F1; clear HP. split.
     + split.
-      * intros r Kr. unfold write. rewrite (HK r Kr). reflexivity.
+      * intros r Kr. unfold write. destruct (Z.eqb_spec r d) as [->|N]; auto.
+        rewrite Kacc_cons_neq in Kr by auto. rewrite (HK r Kr). reflexivity.
       * intros f Hf. now apply OLD.
     + intros f Hf. now apply OLD.
   - destruct (spb d' && spb d) eqn:CB; [|discriminate].
     apply andb_true_iff in CB. destruct CB as [S1 S2].
     inversion HP; subst F1; clear HP. split.
     + split.
-      * intros r Kr. unfold write.
+      * intros r Kr. pose proof (Kacc_kf _ _ _ Kr) as Kk. unfold write.
         destruct (Z.eqb_spec r d'); [subst; apply sp_nonphys in S1; destruct S1; congruence|].
         destruct (Z.eqb_spec r d); [subst; apply sp_nonphys in S2; destruct S2; congruence|].
+        rewrite Kacc_cons_neq in Kr by auto.
         rewrite (al_np_l d'), (al_np_l d); auto; now apply sp_nonphys.
       * intros f [<-|Hf]; [|now apply OLD].
         unfold holds, write; cbn [fst snd]. now rewrite !Z.eqb_refl.
@@ -140,23 +159,24 @@ Proof.
       unfold fact_ok; cbn [fst snd]. fold spb. now rewrite S1, S2.
 Qed.
 
-Lemma pair_writes_sound : forall J W' W F F1 outs rf' mem rf,
-  spill_sim kf F rf' mem rf -> facts_valid F ->
+Lemma pair_writes_sound : forall D J W' W acc F F1 outs rf' mem rf,
+  spill_sim (Kacc D acc) F rf' mem rf -> facts_valid F ->
   pair_writes physl special F W' W = Some F1 ->
-  spill_sim kf F1 (writes al J W' outs rf') mem (writes al J W outs rf).
+  spill_sim (Kacc D (rev W' ++ acc)) F1 (writes al J W' outs rf') mem (writes al J W outs rf).
 Proof.
-  intros J W'; induction W' as [|d' a IH]; intros W F F1 outs rf' mem rf HS HV HP;
+  intros D J W'; induction W' as [|d' a IH]; intros W acc F F1 outs rf' mem rf HS HV HP;
     destruct W as [|d b]; cbn [pair_writes] in HP; try discriminate.
   - inversion HP; subst; exact HS.
   - destruct (pair_write physl special F d' d) as [F2|] eqn:E; [|discriminate].
-    destruct (pair_write_sound J F F2 d' d (hd 0 outs) rf' mem rf HS HV E) as [HS2 HV2].
-    cbn [writes]. eapply IH; eauto.
+    destruct (pair_write_sound D acc J F F2 d' d (hd 0 outs) rf' mem rf HS HV E) as [HS2 HV2].
+    cbn [writes rev]. rewrite <- app_assoc. cbn [app]. eapply IH; eauto.
 Qed.
 
-Lemma uses_ok_sound : forall F us' us rf' mem rf,
-  spill_sim kf F rf' mem rf -> uses_ok special F us' us = true -> map rf' us' = map rf us.
+Lemma uses_ok_sound : forall D F us' us rf' mem rf,
+  spill_sim (kclean special D) F rf' mem rf -> uses_ok special D F us' us = true ->
+  map rf' us' = map rf us.
 Proof.
-  intros F us'; induction us' as [|u' a IH]; intros us rf' mem rf HS H;
+  intros D F us'; induction us' as [|u' a IH]; intros us rf' mem rf HS H;
     destruct us as [|u b]; cbn [uses_ok] in H; try discriminate; auto.
   apply andb_true_iff in H. destruct H as [H1 H2]. cbn [map]. f_equal; [|eapply IH; eauto].
   destruct HS as [HK HF]. apply orb_true_iff in H1. destruct H1 as [H1|H1].
@@ -165,8 +185,9 @@ Proof.
 Qed.
 
 (* ---------------------------------------------------------------- the checked program *)
-Variables (xp : list xinstr) (marks : list bool) (P : list instr) (facts : list (list fact)).
-Hypothesis CHK : check_spill physl special xp marks P facts = true.
+Variables (xp : list xinstr) (marks : list bool) (P : list instr) (facts : list (list fact))
+          (dirty : list (list reg)).
+Hypothesis CHK : check_spill physl special al0 xp marks P facts dirty = true.
 Variables (S : semantics) (junk : nat -> junk_t).
 
 Let S0 := reindex_semb S marks.
@@ -188,7 +209,7 @@ Proof.
 Qed.
 
 Lemma chk_point : forall pc x, nth_error xp pc = Some x ->
-  check_point physl special xp marks P facts pc = true /\
+  check_point physl special al0 xp marks P facts dirty pc = true /\
   nth_error marks pc = Some (nth pc marks false).
 Proof.
   intros pc x Hx. assert (L : (pc < length xp)%nat) by (apply nth_error_Some; congruence).
@@ -208,7 +229,17 @@ Qed.
 
 Definition related (xs : xstate) (ps : state) : Prop :=
   let '(pc', rf', mem) := xs in
-  fst ps = cntb marks pc' /\ spill_sim kf (facts_at facts pc') rf' mem (snd ps).
+  fst ps = cntb marks pc' /\
+  spill_sim (kclean special (dirty_at dirty pc')) (facts_at facts pc') rf' mem (snd ps).
+
+Lemma kclean_sub : forall D1 D2 r, subset D1 D2 = true ->
+  kclean special D2 r = true -> kclean special D1 r = true.
+Proof.
+  unfold kclean; intros D1 D2 r H K. apply andb_true_iff in K. destruct K as [K1 K2].
+  rewrite K1; cbn. apply negb_true_iff in K2. apply negb_true_iff.
+  destruct (memz r D1) eqn:E; auto. apply memz_In in E. apply (subset_In _ _ H) in E.
+  apply memz_In in E. congruence.
+Qed.
 
 Lemma step_spill : forall xs ps, related xs ps ->
   related (xstep al junk S xp xs) ps \/
@@ -218,30 +249,54 @@ Proof.
   unfold xstep. destruct (nth_error xp pc') as [x|] eqn:Hx; [|left; split; auto].
   destruct (chk_point pc' x Hx) as [CP HM]. unfold check_point in CP. rewrite Hx in CP.
   pose proof (chk_valid pc') as HV.
+  set (D := dirty_at dirty pc') in *.
   destruct (nth pc' marks false) eqn:Mk.
   - (* inserted instruction: the original program does not move *)
     left. destruct HS as [HK HF].
     destruct x as [j|d s|s r].
     + destruct (i_clob j) eqn:Cj; [|discriminate]. destruct (i_jumps j) eqn:Jj; [|discriminate].
-      apply andb_true_iff in CP. destruct CP as [CD CS]. rewrite forallb_forall in CD.
+      rewrite !andb_true_iff in CP. destruct CP as [[CD CSub] CS]. rewrite forallb_forall in CD.
       unfold related, next_pc; rewrite Jj. cbn [fst snd]. split; [now rewrite cntb_ins_step|].
       rewrite app_nil_r.
       set (outs := if i_move j then map rf' (i_uses j) else sem_out S pc' (map rf' (i_uses j))).
-      assert (UN : forall q, ~ In q (i_defs j) -> writes al (junk pc') (i_defs j) outs rf' q = rf' q).
-      { intros q Hq. apply writes_unchanged; auto.
-        intros d Hd. apply al_np_l. apply sp_nonphys. apply CD; auto. }
       split.
-      * intros r Kr. rewrite UN; auto. intros Hin. specialize (CD r Hin).
-        apply sp_nonphys in CD. destruct CD; congruence.
+      * intros r Kr.
+        assert (Kr0 : kclean special D r = true).
+        { eapply kclean_sub; [|exact Kr]. unfold subset in *. rewrite forallb_forall in *.
+          intros y Hy. apply CSub. apply in_or_app; now left. }
+        rewrite <- (HK r Kr0).
+        assert (NP : ~ In r (filter (fun r0 => memz r0 (i_defs j)
+                                       || existsb (fun d => al0 d r0) (i_defs j)) physl)).
+        { intros Hin. unfold kclean in Kr. apply andb_true_iff in Kr. destruct Kr as [_ Kr].
+          apply negb_true_iff in Kr. apply memz_false in Kr. apply Kr.
+          eapply subset_In; [exact CSub|]. apply in_or_app; now right. }
+        apply writes_unchanged.
+        -- intros Hin. specialize (CD r Hin). apply orb_true_iff in CD. destruct CD as [CD|CD].
+           ++ apply sp_nonphys in CD. destruct CD as [_ CD]. unfold kclean in Kr0.
+              apply andb_true_iff in Kr0. destruct Kr0 as [Kr0 _]. unfold kf in CD. congruence.
+           ++ apply andb_true_iff in CD. destruct CD as [CD _]. apply NP. apply filter_In. split.
+              ** now apply memz_In.
+              ** apply orb_true_iff; left. now apply memz_In.
+        -- intros d Hd. destruct (al d r) eqn:E; auto. exfalso.
+           unfold al, src_alias in E. rewrite !andb_true_iff in E. destruct E as [[E1 E2] E3].
+           apply NP. apply filter_In. split; [now apply memz_In|].
+           apply orb_true_iff; right. apply existsb_exists. exists d; split; auto.
       * eapply succ_ok_sound; eauto. intros f Hf. apply filter_In in Hf. destruct Hf as [Hin Hc].
-        specialize (HF f Hin). unfold holds in *. destruct (fst f) as [q|s0]; auto.
-        rewrite UN; auto. apply negb_true_iff in Hc. now apply memz_false.
-    + apply andb_true_iff in CP. destruct CP as [Sd CS].
+        specialize (HF f Hin). unfold holds in *.
+        destruct (fact_ok_parts f (HV f Hin)) as [_ S2].
+        destruct (fst f) as [q|s0] eqn:El; auto.
+        rewrite writes_unchanged; auto.
+        -- apply negb_true_iff in Hc. now apply memz_false.
+        -- intros d _. apply al_np_r. specialize (S2 q eq_refl). now apply sp_nonphys in S2.
+    + rewrite !andb_true_iff in CP. destruct CP as [[Sd CSub] CS].
       unfold related. cbn [fst snd]. split; [now rewrite cntb_ins_step|].
       destruct (sp_nonphys d Sd) as [Nd Kd].
       split.
-      * intros r Kr. unfold write. destruct (Z.eqb_spec r d); [subst; congruence|].
-        rewrite al_np_l; auto.
+      * intros r Kr. pose proof (kclean_sub _ _ r CSub Kr) as Kr0.
+        unfold write. destruct (Z.eqb_spec r d).
+        -- subst. unfold kclean in Kr0. apply andb_true_iff in Kr0. destruct Kr0 as [Kr0 _].
+           unfold kf in Kd. congruence.
+        -- rewrite al_np_l; auto.
       * eapply succ_ok_sound; eauto. intros f Hf. apply in_app_or in Hf. destruct Hf as [Hf|Hf].
         -- apply in_map_iff in Hf. destruct Hf as [g [<- Hg]]. apply filter_In in Hg.
            destruct Hg as [Hin Hc]. apply loc_eqb_eq in Hc. specialize (HF g Hin).
@@ -251,8 +306,9 @@ Proof.
            unfold write. destruct (Z.eqb_spec q d) as [->|N].
            ++ cbn in Hc. rewrite Z.eqb_refl in Hc. discriminate.
            ++ rewrite al_np_l; auto.
-    + unfold related. cbn [fst snd]. split; [now rewrite cntb_ins_step|].
-      split; [exact HK|].
+    + rewrite !andb_true_iff in CP. destruct CP as [CSub CS].
+      unfold related. cbn [fst snd]. split; [now rewrite cntb_ins_step|].
+      split; [intros r0 Kr; apply HK; eapply kclean_sub; eauto|].
       eapply succ_ok_sound; eauto. intros f Hf. apply in_app_or in Hf. destruct Hf as [Hf|Hf].
       * apply in_map_iff in Hf. destruct Hf as [g [<- Hg]]. apply filter_In in Hg.
         destruct Hg as [Hin Hc]. apply loc_eqb_eq in Hc. specialize (HF g Hin).
@@ -269,7 +325,7 @@ Proof.
     destruct (pair_writes physl special (facts_at facts pc') (i_defs i' ++ i_clob i')
                 (i_defs i ++ i_clob i)) as [post|] eqn:PW; [|discriminate].
     rewrite forallb_forall in CW.
-    pose proof (uses_ok_sound _ _ _ _ _ _ HS CU) as EV.
+    pose proof (uses_ok_sound _ _ _ _ _ _ _ HS CU) as EV.
     unfold step. rewrite nth_error_map, Hi. cbn [option_map].
     assert (EO : origb marks (cntb marks pc') = pc') by (apply origb_cntb; auto).
     unfold related. cbn [fst snd].
@@ -287,15 +343,29 @@ Proof.
                       else sem_out S pc' (map rf' (i_uses i')))).
     { unfold S0, reindex_semb; cbn [sem_out]. now rewrite EO, EV, CM. }
     rewrite EOUT. unfold junk0, reindex_junkb. rewrite EO.
-    pose proof (pair_writes_sound (junk pc') _ _ _ _
+    assert (HS0 : spill_sim (Kacc D []) (facts_at facts pc') rf' mem rf).
+    { eapply spill_sim_mono; [|exact HS]. intros r0 K0. unfold Kacc in K0. unfold kclean.
+      cbn in K0. now rewrite orb_false_r in K0. }
+    pose proof (pair_writes_sound D (junk pc') _ _ [] _ _
                   (if i_move i' then map rf' (i_uses i') else sem_out S pc' (map rf' (i_uses i')))
-                  rf' mem rf HS HV PW) as [HK2 HF2].
-    split; [exact HK2|].
-    eapply succ_ok_sound; eauto. apply CW.
-    unfold next_pc. destruct (i_jumps i') as [|j js]; [now left|].
-    destruct (Nat.lt_ge_cases (sem_br S pc' (map rf' (i_uses i'))) (length (j :: js))).
-    + now apply nth_In.
-    + rewrite nth_overflow by auto; now left.
+                  rf' mem rf HS0 HV PW) as [HK2 HF2].
+    assert (SUCC : In (next_pc S pc' i' (map rf' (i_uses i')))
+                      (match i_jumps i' with [] => [Datatypes.S pc'] | js => js end)).
+    { unfold next_pc. destruct (i_jumps i') as [|j js]; [now left|].
+      destruct (Nat.lt_ge_cases (sem_br S pc' (map rf' (i_uses i'))) (length (j :: js))).
+      + now apply nth_In.
+      + rewrite nth_overflow by auto; now left. }
+    specialize (CW _ SUCC). apply andb_true_iff in CW. destruct CW as [CW1 CW2].
+    split.
+    + intros r0 Kr. apply HK2. unfold kclean in Kr. apply andb_true_iff in Kr.
+      destruct Kr as [K1 K2]. unfold Kacc. rewrite K1; cbn [andb]. rewrite app_nil_r.
+      apply negb_true_iff in K2.
+      destruct (memz r0 D) eqn:ED; cbn [negb orb]; auto.
+      destruct (memz r0 (rev (i_defs i' ++ i_clob i'))) eqn:EW; auto. exfalso.
+      apply memz_false in K2. apply K2. eapply subset_In; [exact CW2|].
+      apply filter_In. split; [now apply memz_In|]. apply negb_true_iff. apply memz_false.
+      intros Hin. apply memz_false in EW. apply EW. now apply in_rev in Hin.
+    + eapply succ_ok_sound; eauto.
 Qed.
 
 Lemma run_spill : forall n xs ps, related xs ps ->
@@ -324,22 +394,23 @@ Qed.
 
 End Sound.
 
-Theorem check_spill_sound : forall physl special xp marks P facts,
-  check_spill physl special xp marks P facts = true ->
-  forall (al0 : reg -> reg -> bool) (S : semantics) (junk : nat -> junk_t) rf' mem rf,
-  spill_sim (keepf special) (facts_at facts 0) rf' mem rf ->
+Theorem check_spill_sound : forall physl special al0 xp marks P facts dirty,
+  check_spill physl special al0 xp marks P facts dirty = true ->
+  forall (S : semantics) (junk : nat -> junk_t) rf' mem rf,
+  spill_sim (kclean special (dirty_at dirty 0)) (facts_at facts 0) rf' mem rf ->
   forall n, exists m, (m <= n)%nat /\
     let al := src_alias (isphys physl) al0 in
     let xs := xrun al junk S xp n (0%nat, rf', mem) in
     let ps := run al (reindex_junkb junk marks) (reindex_semb S marks) (map Some P) m (0%nat, rf) in
     fst ps = cntb marks (fst (fst xs)) /\
-    spill_sim (keepf special) (facts_at facts (fst (fst xs))) (snd (fst xs)) (snd xs) (snd ps) /\
+    spill_sim (kclean special (dirty_at dirty (fst (fst xs)))) (facts_at facts (fst (fst xs)))
+              (snd (fst xs)) (snd xs) (snd ps) /\
     (forall i', nth_error xp (fst (fst xs)) = Some (XI i') ->
                 nth (fst (fst xs)) marks false = false ->
                 reads (map Some P) ps = Some (map (snd (fst xs)) (i_uses i'))).
 Proof.
-  intros physl special xp marks P facts CHK al0 S junk rf' mem rf H0 n.
-  destruct (run_spill physl special al0 xp marks P facts CHK S junk n (0%nat, rf', mem) (0%nat, rf))
+  intros physl special al0 xp marks P facts dirty CHK S junk rf' mem rf H0 n.
+  destruct (run_spill physl special al0 xp marks P facts dirty CHK S junk n (0%nat, rf', mem) (0%nat, rf))
     as [m [Hm R]].
   { unfold related; cbn [fst snd]; split; [destruct marks; reflexivity|exact H0]. }
   exists m; split; auto. cbv zeta.
@@ -347,7 +418,6 @@ Proof.
   cbn [fst snd]. pose proof R as R'. destruct R as [E HS]. split; auto. split; auto.
   intros i' Hx Mk. eapply reads_spill; eauto.
 Qed.
-
 
 Definition slot_apart (x y : Z * Z * Z) : Prop :=
   let '(_, o, sz) := x in let '(_, o2, s2) := y in o + sz <= o2 \/ o2 + s2 <= o.
